@@ -1,0 +1,79 @@
+// Copyright (c) 2026 10X Genomics, Inc. All rights reserved.
+
+//go:build verif
+
+package syntax
+
+// Exports for the external verification harness (property C08, whole
+// tokenizer).  This file is only compiled with `-tags verif`.
+
+// VerifTokId exposes the identifier token rule (the matched prefix or nil).
+func VerifTokId(b []byte) []byte { v, _ := tokIdRule(b); return v }
+
+// VerifKeywordToken exposes keywordToken.
+func VerifKeywordToken(b []byte) ([]byte, int) { return keywordToken(b) }
+
+// VerifTok is one token as the parser receives it from mmLexInfo.Lex.
+type VerifTok struct {
+	Id   int
+	Text []byte
+	Line int
+	Col  int
+}
+
+// VerifComment is one comment block as collected by mmLexInfo.Lex.
+type VerifComment struct {
+	Line  int
+	Col   int
+	Value string
+}
+
+// VerifLexAll runs the scanner loop the generated parser runs: Lex is
+// called until it reports the end of the input (0) or an INVALID token
+// (on which the parser stops), or max tokens were produced.  It returns
+// the tokens, the comments collected on the way and the final scan
+// position.
+func VerifLexAll(src []byte, max int) ([]VerifTok, []VerifComment, int) {
+	info := mmLexInfo{
+		src: src,
+		pos: 0,
+		loc: SourceLoc{
+			Line: 1,
+			Col:  1,
+			File: &SourceFile{FileName: "verif.mro", FullPath: "verif.mro"},
+		},
+		intern: makeStringIntern(),
+	}
+	var toks []VerifTok
+	var lval mmSymType
+	for len(toks) < max {
+		id := info.Lex(&lval)
+		if id == 0 {
+			break
+		}
+		toks = append(toks, VerifTok{Id: id, Text: lval.val, Line: lval.loc.Line, Col: lval.loc.Col})
+		if id == INVALID {
+			break
+		}
+	}
+	comments := make([]VerifComment, 0, len(info.comments))
+	for _, c := range info.comments {
+		comments = append(comments, VerifComment{Line: c.Loc.Line, Col: c.Loc.Col, Value: c.Value})
+	}
+	return toks, comments, info.pos
+}
+
+// VerifTokenName returns the grammar's name of a token id as Lex returns
+// it ("ID", "STAGE", "'('", ...), or "" if there is none.
+func VerifTokenName(id int) string {
+	if id >= mmPrivate {
+		if i := id - mmPrivate + 1; i >= 0 && i < len(mmToknames) {
+			return mmToknames[i]
+		}
+		return ""
+	}
+	if id > 0 && id < 128 {
+		return "'" + string(rune(id)) + "'"
+	}
+	return ""
+}
